@@ -3,8 +3,8 @@
 variants; the quick tier's are a prefix) of the CURRENT tree all give the specification's answer (class "agree": hand-written
 shapes of harness/explore_util.py SCHEDULE_SHAPES - goals called again inside an open cycle, recursion with negation - and
 small generated cyclic programs), or all end in a grounding error (class "reject": programs with a loop through negation that
-the specification classifies as must-reject, NEGLOOP_SHAPES and generated ones outside the region of known finding
-C02-missed-negative-cycle). The C03 check replays them first: a changed outcome is a corpus-regression, which no known
+the specification classifies as must-reject, NEGLOOP_SHAPES and generated ones without a positive cycle, see
+explore_util.reject_region). The C03 check replays them first: a changed outcome is a corpus-regression, which no known
 finding matches. Run: /venv/bin/python tools/gen_c03_corpus.py"""
 import json, os, random, sys
 V = os.path.dirname(os.path.dirname(os.path.abspath(__file__)))
@@ -24,7 +24,7 @@ c03.N[0] = 30
 def _runs(args):
     P, seed = args
     item = c03.variants(P, seed)
-    return X._cheap_work(item), X._full_work(item)
+    return X.settled(X._cheap_work(item), item, X.ground_eval), X.settled(X._full_work(item), item, semcheck.run_cfg)
 
 
 def holds_batch(cands, cls):
@@ -32,7 +32,7 @@ def holds_batch(cands, cls):
     if cls == "agree":
         cands = [c for c in cands if c[1] is not None and c[1]["undef"] == 0 and not c[1]["negcycle_full"] and c[1]["probs"] and c[1]["z"] != 0]
     else:
-        cands = [c for c in cands if c[1] is not None and c[1]["undef_roots"] > 0 and not spine.poscycle_in_negcycle_scc(c[0])]
+        cands = [c for c in cands if c[1] is not None and c[1]["undef_roots"] > 0 and X.reject_region(c[0])]
     res = lib.pmap(_runs, [(P, sd) for P, _, sd in cands], procs=8, chunksize=1)
     ok = []
     for (P, sem, sd), (cheap, full) in zip(cands, res):
@@ -82,5 +82,7 @@ for origin, gen, flt, cls, n in QUOTAS:
             if stats.get(origin, 0) < n:
                 add(P, sd, cls, origin)
 os.makedirs(os.path.join(V, "corpus", "C03"), exist_ok=True)
-json.dump(out, open(os.path.join(V, "corpus", "C03", "schedules.json"), "w"), default=str, indent=0)
+dest = os.path.join(V, "corpus", "C03", "schedules.json")
+json.dump(out, open(dest + ".tmp", "w"), default=str, indent=0)
+os.replace(dest + ".tmp", dest)
 print(len(out), "programs", stats)
